@@ -695,7 +695,8 @@ class TorConfig:
                 )
             socks_config = self.SocksPort[0]
         else:
-            if not any([socks_config in port for port in self.SocksPort]):
+            wanted = socks_config.split()[0]
+            if not any([port.split()[0] == wanted for port in self.SocksPort]):
                 # need to configure Tor
                 self.SocksPort.append(socks_config)
                 try:
